@@ -1053,6 +1053,11 @@ func printedInBlocks(o *Out, insts []*inst05) {
 	sort.SliceStable(sel, func(a, b int) bool { return sel[a].I.Opcode < sel[b].I.Opcode })
 	const per = 64
 	bad := 0
+	// one printer prints all the files, and every result is kept until the last file has been printed (a
+	// generator that writes its files at the end): what is held must still be what Print returned
+	shared := printer.NewGoAsm(printer.Config{Name: "avo", Pkg: "p"})
+	var held [][]byte
+	var snaps []string
 	for lo := 0; lo < len(sel); lo += per {
 		hi := lo + per
 		if hi > len(sel) {
@@ -1067,9 +1072,26 @@ func printedInBlocks(o *Out, insts []*inst05) {
 		f := ir.NewFile()
 		f.Includes = []string{"textflag.h"}
 		f.AddSection(fn)
-		out, err := printer.NewGoAsm(printer.Config{Name: "avo", Pkg: "p"}).Print(f)
+		out, err := shared.Print(f)
 		if err != nil {
+			held, snaps = append(held, nil), append(snaps, "")
 			continue
+		}
+		held, snaps = append(held, out), append(snaps, string(out))
+	}
+	changed := 0
+	for b, lo := 0, 0; lo < len(sel); b, lo = b+1, lo+per {
+		hi := lo + per
+		if hi > len(sel) {
+			hi = len(sel)
+		}
+		if held[b] == nil {
+			continue
+		}
+		out := held[b]
+		if string(out) != snaps[b] && changed < 3 {
+			changed++
+			o.Plan.GoViolations = append(o.Plan.GoViolations, GoViolation{Key: "printed-in-block:earlier-output-changed", Desc: fmt.Sprintf("the bytes Print returned for file %d of %d are different bytes after the same printer has printed the later files", b+1, len(held)), Replay: map[string]any{"returned": snaps[b], "now": string(out)}})
 		}
 		var lines []string
 		for _, ln := range strings.Split(string(out), "\n") {
